@@ -35,6 +35,8 @@ RULES = {
     "C05-E7": "the post-handler accounting tests only per-unit state that was re-established for this unit",
     "C05-E8": "each typed reader can return TRUE exactly for the token classes of its data type (no suffixed number where no suffix is allowed, no foreign class)",
     "C05-E9": "every path of SCPI_ErrorPushEx (any queue state, any code) marks the running command as failed: context->cmd_error = TRUE",
+    "C05-E10": "-363 is raised only for input that does not fit: the overrun guard is exact (shared with C08-H8)",
+    "C05-E11": "the parameter counter that decides whether a comma must be consumed is at least as wide as the element count of the array readers (it cannot wrap inside one unit)",
     "C05-E6": "SCPI_Parameter returns TRUE only for recognised program-data classes; all other paths invalidate the token and queue a -1xx error",
 }
 
@@ -581,6 +583,32 @@ def rule_e9(ck, prog):
                     "the unit is then accounted as successful (no result = FALSE, trailing-data / -200 accounting wrong)")
 
 
+def rule_e10_e11(ck, prog, S):
+    from . import c08
+    c08.rule_h8(K.RuleProxy(ck, {"C08-H8": "C05-E10"}), prog, S)
+    rec = prog.records.get("_scpi_t")
+    par = prog.fn("SCPI_Parameter")
+    arr = [f for f in prog.functions.values() if f.name.startswith("SCPI_ParamArray")]
+    if not rec or par is None or not arr:
+        ck.anchor_lost("C05-E11", "struct _scpi_t / SCPI_Parameter / SCPI_ParamArray*")
+        return
+    read = {n.get("member") for n in par.nodes.values() if n.k == "MemberExpr" and n.get("record") == "_scpi_t"}
+    flds = [q for q in rec["fields"] if q["name"] in read and q["type"].get("tk") == "int" and "count" in q["name"]]
+    st = K.site(par, "parameter-counter-width", 0)
+    need = max([(p_["type"].get("bits") or 0) for f in arr for p_ in f.params if p_["name"] in ("i_count", "count")] or [0])
+    if not flds or not need:
+        ck.anchor_lost("C05-E11", "counter field read by SCPI_Parameter / count parameter of the array readers")
+        return
+    have = flds[0]["type"].get("bits") or 0
+    if have < need:
+        ck.violated("C05-E11", st, K.loc(par),
+                    "`%s` (%d bits) decides whether a comma must precede the next parameter, but one unit may carry as many parameters "
+                    "as an array count of %d bits says: after 2^%d parameters the counter is zero again, the comma is not consumed and "
+                    "a well-formed list ends in -151 / a short array" % (flds[0]["name"], have, need, have))
+    else:
+        ck.holds("C05-E11", st, K.loc(par), "`%s` has %d bits, array counts have %d" % (flds[0]["name"], have, need))
+
+
 def rule_e6(ck, prog, S, ts):
     f = prog.fn("SCPI_Parameter")
     if f is None:
@@ -710,6 +738,7 @@ def run(ck, fb, tier):
         rule_e4_e5(ck, prog, S)
         rule_e6(ck, prog, S, ts)
         rule_e9(ck, prog)
+        rule_e10_e11(ck, prog, S)
         rule_e7(ck, prog, S)
         rule_e8(ck, prog, S, spec, ts)
     ck.trust("spec/param_errors.json (error codes per cause, conversions that cannot fail, licensed silent case)")
